@@ -25,8 +25,12 @@ def resolve_roles(func):
                 roles.setdefault("point", tgt)
             elif "self.posterior(" in src:
                 roles.setdefault("p_new", tgt)
-            elif "self.process_proposal(" in src:
-                roles.setdefault("candidate", tgt)
+                # the candidate is whatever local is handed to the posterior (not "whatever process_proposal returned":
+                # a restructured body may apply process_proposal elsewhere, which is exactly what must be noticed)
+                for c_ in ast.walk(n.value):
+                    if isinstance(c_, ast.Call) and ast.unparse(c_.func) == "self.posterior" and c_.args \
+                            and isinstance(c_.args[0], ast.Name):
+                        roles.setdefault("candidate", c_.args[0].id)
         if isinstance(n, ast.For) and "self.directions" in ast.unparse(n.iter):
             nm = _names(n.target)
             if len(nm) == 2:
